@@ -381,4 +381,81 @@ example : ∃ (C : Ctx 11 1 6) (g : C.H), C.n = 13 ∧
   refine List.Forall₂.cons ?_ List.Forall₂.nil
   exact Rel.pj (o := ⟨toyG, []⟩) ⟨⟨hg.1, hg.2.1, hm, hg.2.2.2⟩, Or.inr rfl, Or.inl rfl⟩
 
-end C19g
+/-! ### non-vacuity that exercises the property: two DIFFERENT hidden states of the same values
+
+On y² = x³ + x + 6 over F₁₁ (n = 13): object 0 is the generator-flagged point (2, 7) with declared order 13 — in `toyH₁` its
+table is completely built, in `toyH₂` (the freshly constructed twin) it is empty; object 1 denotes the same point, in
+`toyH₁` as the Jacobian triple (10, 8, 4) (what `14 * G` returns: Z ≠ 1), in `toyH₂` as (2, 7, 1).  Both heaps are related
+to the same abstract heap `[g, g]`, the history below is covered, and `history_independent_fresh_curve` applies; the last
+conjunct is the same fact by kernel evaluation of the two runs. -/
+
+def toyGen : PJ := ⟨toyC, 2, 7, 1, some 13, true⟩
+def toyP14 : PJ := ⟨toyC, 10, 8, 4, none, false⟩
+def toyTable : List (ℤ × ℤ) := [(2, 7), (5, 2), (10, 2), (3, 5), (8, 3), (7, 9), (2, 4)]
+def toyH₁ : Heap := [.pj ⟨toyGen, toyTable⟩, .pj ⟨toyP14, []⟩]
+def toyH₂ : Heap := [.pj ⟨toyGen, []⟩, .pj ⟨toyG, []⟩]
+def toyOps : List Op :=
+  [.mul (.obj 0) 5, .x (.obj 2), .scale (.obj 1), .x (.obj 1), .y (.obj 1), .eq (.obj 1) (.obj 0), .pickle (.obj 1),
+   .mul (.obj 1) 1, .toAffine (.obj 1), .mkKey (.obj 0) (.obj 1), .keySer 5 1]
+
+theorem toy_two_hidden_states :
+    ∃ (C : Ctx 11 1 6) (g : C.H),
+      Inv (HS C) (HA C) toyH₁ [.pj g (some 13) true, .pj g none false] ∧
+      Inv (HS C) (HA C) toyH₂ [.pj g (some 13) true, .pj g none false] ∧
+      @C19.CoveredAll C.H _ (Classical.decEq _) (spec C toyC) [.pj g (some 13) true, .pj g none false] toyOps ∧
+      outputs toyH₁ toyOps = outputs toyH₂ toyOps := by
+  obtain ⟨g, hg⟩ := toyG_rep
+  have hnone : ∀ n, truthy toyG.order = some n → n • g = 0 := by intro n hn; simp [toyG, truthy] at hn
+  obtain ⟨R, e, hR⟩ := pjMul_naf_correct (by decide) toy_n2t hg rfl hnone 13
+  have e13 : pjMul toyG 13 = .ok .infinity := by decide +kernel
+  change pjMul toyG 13 = _ at e
+  rw [e13] at e; cases e
+  let C : Ctx 11 1 6 := ⟨g, 13, hR, by decide, by decide⟩
+  have hm : g ∈ C.H := AddSubgroup.mem_zmultiples g
+  let gg : C.H := ⟨g, hm⟩
+  have hp2 : (11 : ℕ) ≠ 2 := by decide
+  let _ : DecidableEq C.H := Classical.decEq _
+  have RI := rep_indep hp2 C toyC toyC_on
+  -- the four hidden states
+  have hsG : HS C toyG [] gg := ⟨⟨hg.1, hg.2.1, hm, hg.2.2.2⟩, Or.inr rfl, Or.inl rfl⟩
+  have hsGen : HS C toyGen [] gg := ⟨⟨hg.1, hg.2.1, hm, hg.2.2.2⟩, Or.inl rfl, Or.inl rfl⟩
+  have hsGenT : HS C toyGen toyTable gg := by
+    obtain ⟨t', et, hst, _⟩ := RI.hs_precompute hsGen (fun _ => ⟨13, by decide⟩)
+    have : maybePrecompute toyGen [] = .ok toyTable := by decide +kernel
+    rw [this] at et; cases et; exact hst
+  have hg13 : (13 : ℤ) • g = 0 := hR
+  have hsP : HS C toyP14 [] gg := by
+    obtain ⟨R', e', hR'⟩ := GroupInterface.mul hp2 C hsG.1 (Or.inr ⟨rfl, rfl⟩) 14
+    have : pjMul toyG 14 = .ok (.jac toyP14) := by decide +kernel
+    rw [this] at e'; cases e'
+    have h14 : (14 : ℤ) • g = g := by
+      have : (14 : ℤ) = 13 + 1 := by norm_num
+      rw [this, add_smul, hg13, one_smul, zero_add]
+    exact ⟨by have := hR'; rw [show ((14 : ℤ) • (gg : C.H).1) = g from h14] at this; exact this, Or.inr rfl, Or.inl rfl⟩
+  have inv1 : Inv (HS C) (HA C) toyH₁ [.pj gg (some 13) true, .pj gg none false] :=
+    List.Forall₂.cons (Rel.pj (o := ⟨toyGen, toyTable⟩) hsGenT)
+      (List.Forall₂.cons (Rel.pj (o := ⟨toyP14, []⟩) hsP) List.Forall₂.nil)
+  have inv2 : Inv (HS C) (HA C) toyH₂ [.pj gg (some 13) true, .pj gg none false] :=
+    List.Forall₂.cons (Rel.pj (o := ⟨toyGen, []⟩) hsGen)
+      (List.Forall₂.cons (Rel.pj (o := ⟨toyG, []⟩) hsG) List.Forall₂.nil)
+  refine ⟨C, gg, inv1, inv2, ?_, by decide +kernel⟩
+  -- coverage: follow the abstract run; the only value test on the way is 5 • g ≠ 0 (g has prime order 13)
+  have h5 : (5 : ℤ) • gg ≠ 0 := by
+    intro h0
+    have h0' : (5 : ℤ) • g = 0 := by have := congrArg Subtype.val h0; simpa using this
+    have h1 : g = (8 : ℤ) • ((5 : ℤ) • g) - (3 : ℤ) • ((13 : ℤ) • g) := by
+      rw [smul_smul, smul_smul, ← sub_smul]; norm_num
+    rw [h0', hg13, smul_zero, smul_zero, sub_zero] at h1
+    exact good_ne_zero hg.2.2 h1
+  have hxy := xyOf_spec hg
+  have hx : GroupInterface.xOf g = 2 := by
+    have : pjX toyG = .ok 2 := by decide +kernel
+    rw [this] at hxy; exact (Except.ok.inj hxy.1).symm
+  have hy : yOf g = 7 := by
+    have : pjY toyG = .ok 7 := by decide +kernel
+    rw [this] at hxy; exact (Except.ok.inj hxy.2).symm
+  simp [toyOps, C19.CoveredAll, astep, arun, amulObj, agetPt, aptOf, AM.bind, aupdPJ, amulState, genOK, truthy, aallocPJ,
+    h5, AM.alloc, AM.pure, areadX, areadY, ascaleObj, agetPJ, aeqObj, apickleObj, acopyPoint, AM.getHeap, atoAffineObj,
+    amkKeyObj, afromAffineObj, spec, hx, hy, gg, Gen.Ecdsa.pubkey_x_out,
+    Gen.Ecdsa.pubkey_y_out, Gen.Ecdsa.pubkey_no_order, toyC]
+  refine ⟨?_, ?_, ?_, ?_, ?_, ?_, ?_, ?_, ?_, ?_, ?_⟩ <;> exact C19.coveredB_sound rfl
